@@ -87,7 +87,9 @@ OTHERS = [
     ("typed:net.ipnetwork", "Type.net.ipnetwork", True), ("typed:uri.filename", "Type.uri.filename", True),
     ("typed:absent-type", "Type.net.ipv4.Subnet", True),
     ("ctor:net.ipaddress", "net.ipaddress('10.0.0.1')", False), ("ctor:net.ipnetwork", "net.ipnetwork('10.0.0.0/8')", True),
-    ("ctor:net.IPNetwork", "net.IPNetwork('::/0')", True), ("names(r)", "names(r)", True), ("name(r)", "name(r)", True),
+    ("ctor:net.IPNetwork", "net.IPNetwork('::/0')", True), ("ctor:net.ipv4.Subnet", "net.ipv4.Subnet('10.0.0.0/8')", True),
+    ("ctor:net.ipv4.Subnet/32", "net.ipv4.Subnet('10.0.0.1')", True), ("ctor:net.ipv4.Address", "net.ipv4.Address('10.0.0.1')", False),
+    ("names(r)", "names(r)", True), ("name(r)", "name(r)", True),
 ]
 # derived operands: arithmetic on / attributes of the missing field, (category, source)
 DERIVED = [
@@ -102,7 +104,9 @@ DERIVED = [
     ("format", "'%s' % r.zz"), ("format", "'%d' % r.zz"), ("format", "b'%s' % r.zz"), ("format", "'%s' % r.zz.a"), ("format", "'port %s' % (r.zz + 1)"),
     ("format-tuple", "'%s-%s' % (r.zz, 1)"), ("format-tuple", "'%s-%s' % (r.n, r.zz)"), ("format-tuple", "'%d' % (r.zz,)"),
 ]
-DERIVED_OTHERS = ["0", "1", "5", "'x'", "None", "r.n", "[0]", "False", "'443'", "b'x'", "['beta', 'x']", "2000", "['a']"]
+DERIVED_OTHERS = ["0", "1", "5", "'x'", "None", "r.n", "[0]", "False", "'443'", "b'x'", "['beta', 'x']", "2000", "['a']",
+                  "net.ipv4.Subnet('10.0.0.0/8')", "net.ipnetwork('10.0.0.0/8')", "net.IPNetwork('::/0')", "(1, 'x')"]
+DERIVED_CONTAINERS = ("[", "(", "net.ipv4.Subnet", "net.ipnetwork", "net.IPNetwork")   # may stand on the right of in / not in
 
 HELPERS = [
     "field_contains(r, %s, %s)", "field_contains(r, %s, %s, nocase=False)", "field_contains(r, %s, %s, word_boundary=True)",
@@ -260,8 +264,10 @@ def generate(ctx):
         for category, dsrc in DERIVED:
             for op in OPS[:6] + ["in"] + (["not in"] if category.startswith("format") else []):
                 for o in DERIVED_OTHERS:
-                    if op in ("in", "not in") and not o.startswith("["):
+                    if op in ("in", "not in") and not o.startswith(DERIVED_CONTAINERS):
                         continue
+                    if category.startswith("format") and o.startswith("net."):
+                        continue   # a formatted text is no address: ill-typed
                     for fmt in ("%s {op} {o}", "{o} {op} %s"):
                         if op in ("in", "not in") and fmt.startswith("{o}"):
                             continue
